@@ -29,6 +29,8 @@ def missing_values_discipline(ctx: Ctx, rule: str):
         ctr = ctrs[0] if len(ctrs) == 1 else "n"
         canon = util.canon_of(f)
         vparam = f.params[1] if len(f.params) > 1 else "values"
+        # the output array: whatever local holds the IndexedBase
+        ibs = {t.id for st in ast.walk(f.node) if isinstance(st, ast.Assign) and isinstance(st.value, ast.Call) and norm(st.value.func).split(".")[-1] == "IndexedBase" for t in st.targets if isinstance(t, ast.Name)} or {"values_idx"}
         def seq_text(node):
             # a + b, itertools.chain(a, b), (*a, *b), [*a, *b]: the concatenation of a and b
             if isinstance(node, ast.Call) and (dotted(node.func) or "").split(".")[-1] == "chain" and node.args and not node.keywords:
@@ -46,7 +48,7 @@ def missing_values_discipline(ctx: Ctx, rule: str):
             v = l.target.id
             for p in te.enumerate_paths(l.body):
                 req = [pol for a, pol in p.lits if a == f"{v}.name in values"]
-                stores = [i for i, st in enumerate(p.effects) if isinstance(st, ast.Expr) and f"values_idx[values[{v}.name]]" in norm(st) and f"{v}.symbol" in norm(st)]
+                stores = [i for i, st in enumerate(p.effects) if isinstance(st, ast.Expr) and any(isinstance(sb, ast.Subscript) and isinstance(sb.value, ast.Name) and sb.value.id in ibs and norm(sb.slice) == f"{vparam}[{v}.name]" for sb in ast.walk(st)) and f"{v}.symbol" in norm(st)]
                 incs = [i for i, st in enumerate(p.effects) if isinstance(st, ast.AugAssign) and norm(st.target) == ctr]
                 defs = [i for i, st in enumerate(p.effects) if isinstance(st, ast.Expr) and f"self._doprint({v}.symbol, {v}.expr" in norm(st)]
                 key = f.key(f"loop{idx + 1}::{p.pred()}")
